@@ -61,12 +61,14 @@ def generate(seed, tier):
             swing = rng.choice([1e-3, 100.0, 1.0, 50.0])
         a = rng.choice([0.0, 0.0, -swing / 2, rng.uniform(-2, 2) * swing, 0.2 * swing])
         alpha = 10 ** rng.uniform(-3, 3)
+        corner = False
         if rng.random() < 0.25:
             alpha = rng.choice([1e-3, 1e3, 1.0])
         if rng.random() < 0.2:          # corner of the domain: millivolt signals expressed in much smaller units
             swing = 10 ** rng.uniform(-3, -2)
             a = rng.choice([0.0, -swing / 2])
             alpha = 10 ** rng.uniform(-3, -2.5)
+            corner = True
         nsl = rng.choice([64, 96, 128, 65, 127, 255])
         if rng.random() < 0.05:
             nsl = rng.choice([256, 512, 1000, 511])
@@ -75,7 +77,8 @@ def generate(seed, tier):
         ops.append({"op": "case", "sps": sps, "R": rng.choice([1e9, 10e9, 2.5e9]), "nslots": nsl,
                     "pattern": rng.choice(["random", "random", "prbs", "blocks", "sparse", "dense"]),
                     "bseed": rng.getrandbits(31),
-                    "a": a, "swing": swing, "bwf": rng.uniform(0.7, 1.0), "sigma": rng.uniform(0.005, 0.05),
+                    "a": a, "swing": swing, "bwf": rng.uniform(0.7, 1.0),
+                    "sigma": rng.uniform(0.005, 0.012) if (corner and rng.random() < 0.5) else rng.uniform(0.005, 0.05),
                     "nseed": rng.getrandbits(31), "form": rng.choice(["es_noise", "es", "arr", "es_noise", "es_c", "arr_c"]),
                     "seeds": [rng.getrandbits(31) for _ in range(2 if tier == "quick" else 3)],
                     "alpha": alpha, "beta": rng.choice([0.0, rng.uniform(-10, 10) * alpha * swing,
@@ -181,19 +184,7 @@ class Bench:
             return self.GET_EYE(arg, sps_resamp=128)
 
     def _estimate(self, clean, noise, form, seed):
-        if form == "es_noise":
-            arg = self.E(clean.copy(), noise.copy())
-        elif form == "es_c":          # complex-typed container with zero imaginary part (e.g. after an FFT-based block)
-            arg = self.E(clean.astype(complex), noise.astype(complex))
-        elif form == "arr_c":
-            arg = (clean + noise).astype(complex)
-        elif form == "es":
-            arg = self.E(clean + noise)
-        else:
-            arg = (clean + noise).copy()
-        np.random.seed(seed)
-        with seams.stdout_tap():
-            return self.GET_EYE(arg, sps_resamp=128)
+        return self._estimate_obj(self._container(clean, noise, form), seed)
 
     def op_case(self, op):
         sps, a, swing = op["sps"], op["a"], op["swing"]
